@@ -41,6 +41,10 @@ OPS = [
     ("set", ("set", (1, 3, 1, 2, 1), ("str", b"x")), 1),
     ("multiset", ("multiset", [((1, 3, 1, 2, 1), ("str", b"x")), ((1, 3, 1, 1, 1), ("int", 5))]), 1),
     ("bulkget", ("bulkget", [(1, 3, 2)], [(1, 3, 1, 1)], 2), 1),
+    # the refused values are octet strings that are no text (a MAC address,
+    # latin-1): the error response echoes them
+    ("set-binary", ("set", (1, 3, 1, 2, 1), ("str", b"\x00\x1b\xff\xfe\x80")), 1),
+    ("multiset-binary", ("multiset", [((1, 3, 1, 2, 1), ("str", b"caf\xe9")), ((1, 3, 1, 1, 1), ("opaque", b"\xff\xff"))]), 1),
     ("walk@1", ("walk", (1, 3, 1)), 1),
     ("walk@2", ("walk", (1, 3, 1)), 2),
     ("multiwalk@1", ("multiwalk", [(1, 3, 1, 1), (1, 3, 1, 2)]), 1),
